@@ -317,6 +317,9 @@ func genDkgRuns(c *Ctx, prop string) {
 	if c.thorough() {
 		configs = append(configs, [2]int{7, 3}, [2]int{2, 1})
 	}
+	if prop == "C08" {
+		genFvssOrders(c)
+	}
 	for it := 0; it < nRuns; it++ {
 		cfg := configs[it%len(configs)]
 		n, t := cfg[0], cfg[1]
@@ -530,4 +533,82 @@ func dkgPredicates(nt *dkgNet, bds []*byzDealer, prop string) string {
 		return "ok"
 	}
 	return "violated: " + strings.Join(problems, "; ")
+}
+
+// genFvssOrders: plain Feldman VSS, one honest receiver, every kind of invalid vector x both arrival orders
+// x share kinds (incl. the constant term of the polynomial as share, which matches a truncated vector).
+func genFvssOrders(c *Ctx) {
+	n, t, me, dealer := 4, 2, 1, 0
+	for _, vk := range []string{"ok", "wrong-size", "short-by-one-point", "bad-point", "bad-point-last", "not-in-g2", "not-in-g2-last", "identity-points", "duplicate", "empty-payload"} {
+		for _, sk := range []string{"ok", "a0", "wrong-value", "wrong-size", "zero"} {
+			for order := 0; order < 2; order++ {
+				p := c.randPoly(t)
+				v := p.vectorMsg()
+				switch vk {
+				case "wrong-size":
+					v = v[:len(v)-1]
+				case "short-by-one-point":
+					v = v[:len(v)-96]
+				case "bad-point":
+					v[1] = 0xe0
+				case "bad-point-last":
+					v[1+96*t] = 0xe0
+				case "not-in-g2":
+					copy(v[1:], askBytes("e2 off 0"))
+				case "not-in-g2-last":
+					copy(v[1+96*t:], askBytes("e2 torsion 1"))
+				case "identity-points":
+					for j := 1; j <= t; j++ {
+						inf := make([]byte, 96)
+						inf[0] = 0xc0
+						copy(v[1+96*j:], inf)
+					}
+				case "empty-payload":
+					v = v[:1]
+				}
+				var sh []byte
+				switch sk {
+				case "ok":
+					sh = shareMsg(p.eval(me + 1))
+				case "a0":
+					sh = shareMsg(p[0])
+				case "wrong-value":
+					sh = shareMsg(c.randScalar())
+				case "wrong-size":
+					sh = shareMsg(p.eval(me + 1))[:30]
+				case "zero":
+					sh = shareMsg(big.NewInt(0))
+				}
+				nd, err := newDkgNode("fvss", n, t, me, dealer)
+				if err != nil {
+					panic(err)
+				}
+				nd.call("S:" + hx(c.bytes(32)))
+				calls := []string{"B:0:" + hx(v), "P:0:" + hx(sh)}
+				if order == 1 {
+					calls[0], calls[1] = calls[1], calls[0]
+				}
+				if vk == "duplicate" {
+					calls = append(calls, "B:0:"+hx(v))
+				}
+				for _, tok := range calls {
+					nd.call(tok)
+				}
+				nd.call("E")
+				c.Case("fvss-orders/"+vk+"/"+sk, nd.line(), nd.answer())
+				// predicate: keys only if the vector is valid and the share is the right one
+				validVec := vk == "ok" || vk == "duplicate" || vk == "identity-points"
+				goodShare := (sk == "ok" && vk != "identity-points") || (vk == "identity-points" && sk == "a0")
+				verdict := "ok"
+				if nd.panicked {
+					verdict = "violated: panic"
+				} else if nd.endRes == "keys" && !(validVec && goodShare) {
+					verdict = fmt.Sprintf("violated: plain Feldman VSS returned keys with vector %s and share %s (order %d)", vk, sk, order)
+				} else if nd.endRes != "keys" && validVec && goodShare {
+					verdict = fmt.Sprintf("violated: plain Feldman VSS refused a valid dealing (vector %s share %s): %s", vk, sk, nd.endRes)
+				}
+				c.Case("fvss-orders-predicate", fmt.Sprintf("expect ok #%s/%s/%d", vk, sk, order), verdict)
+			}
+		}
+	}
 }
